@@ -48,14 +48,14 @@ func c19() []*Ob {
 				ErrFlowCheck(c, scope, nil)
 				// processFrac persists through it
 				if pf := c.Fn("(*fracmanager.AsyncSearcher).processFrac"); pf != nil {
-					if len(CallsIn(pf, Callee("fracmanager.mustWriteFileAtomic"))) > 0 {
+					if Current.HasCall(pf, Callee("fracmanager.mustWriteFileAtomic")) {
 						c.Site(pf.Pos(), "partial results are persisted with mustWriteFileAtomic")
 					} else {
 						c.Violation("own:processFrac:atomic-write", pf.Pos(), "processFrac no longer persists the partial result with mustWriteFileAtomic")
 					}
 				}
 				if ws := c.Fn("(*fracmanager.AsyncSearcher).mustWriteSearchInfo"); ws != nil {
-					if len(CallsIn(ws, Callee("fracmanager.mustWriteFileAtomic"))) > 0 {
+					if Current.HasCall(ws, Callee("fracmanager.mustWriteFileAtomic")) {
 						c.Site(ws.Pos(), "request state is persisted with mustWriteFileAtomic")
 					} else {
 						c.Violation("own:mustWriteSearchInfo:atomic-write", ws.Pos(), "the request state is no longer persisted with mustWriteFileAtomic")
@@ -94,7 +94,7 @@ func c19() []*Ob {
 				} else {
 					c.Violation("codec:AggBin:separator", from.Pos(), "toKey joins with %v but fromKey splits with %v", keysOf(ts), keysOf(fs))
 				}
-				if len(CallsIn(to, Callee("strconv.Itoa", "strconv.FormatInt", "strconv.FormatUint"))) > 0 && len(CallsIn(from, Callee("strconv.Atoi", "strconv.ParseInt", "strconv.ParseUint"))) > 0 {
+				if Current.HasCall(to, Callee("strconv.Itoa", "strconv.FormatInt", "strconv.FormatUint")) && Current.HasCall(from, Callee("strconv.Atoi", "strconv.ParseInt", "strconv.ParseUint")) {
 					c.Site(from.Pos(), "MID is rendered and parsed in decimal")
 				} else {
 					c.Violation("codec:AggBin:number", from.Pos(), "toKey/fromKey no longer use a matching integer rendering/parsing pair")
@@ -126,7 +126,7 @@ func c19() []*Ob {
 						typ = "seq.AggregatableSamples"
 					}
 					for _, f := range []string{"SamplesByBin", "NotExists"} {
-						wrote := len(InstrsIn(fn, FieldStore(typ, f))) > 0
+						wrote := Current.Has(fn, FieldStore(typ, f))
 						if !wrote && f == "SamplesByBin" {
 							// filled by map updates through the field
 							for _, a := range FieldAccesses(fn, func(t, ff string) bool { return t == typ && ff == f }) {
